@@ -3,7 +3,7 @@
    inlined. Numbers (N, Z, positive, nat) stay the extracted inductive types. *)
 From Coq Require Extraction.
 From Coq Require Import ExtrOcamlBasic.
-From CKC Require Import Base.Prelude Base.SortN Model.Card Model.Deck Model.Hands Model.Five Model.HandRank
+From CKC Require Import Base.Prelude Base.SortN Model.Card Model.Deck Model.Hands Model.Shift Model.Five Model.HandRank
   Model.Binary Model.Two Model.Parse Model.Container Model.Search Model.Proj.
 
 Extraction Language OCaml.
@@ -17,7 +17,7 @@ Extraction "model.ml"
   Model.Card.shift_suit
   Model.Deck.deck_get
   Model.Hands.is_valid Model.Hands.is_corrupt Model.Hands.are_unique Model.Hands.contain_blank
-  Base.SortN.sort_desc Model.Hands.shift_suit_hand
+  Base.SortN.sort_desc Model.Hands.shift_suit_hand Model.Shift.shift_suit_sized
   Model.Five.hrvh Model.Five.hand_rank_value Model.Five.hand_rank_value_validated Model.Five.evaluate_five_cards
   Model.Five.find_in_products Model.Five.is_flush Model.Five.is_straight Model.Five.is_straight_flush
   Model.Five.is_wheel Model.Five.or_rank_bits Model.Five.and_bits Model.Five.or_bits Model.Five.multiply_primes
